@@ -29,6 +29,12 @@ def scenario(rng):
     # after a snapshot + restart the marker must still be there
     ops += ["snapshot 7200", "restart", "post a ok %d %s" % (cm["a"], hx("PRIVMSG #c :retried after restore")), "post b ok %d %s" % (cm["b"], hx("PRIVMSG #c :retried after restore"))]
     checks += [len(ops) - 2, len(ops) - 1]
+    if rng.random() < 0.6:
+        # the last entry of a session is a message of death (what a crashed apply leaves behind): it moves the
+        # marker too, also after it was folded into a snapshot
+        cm["a"] += 1
+        ops += ["death a %d" % cm["a"], "snapshot 7200", "restart", "post a ok %d %s" % (cm["a"], hx("PRIVMSG #c :retried after death"))]
+        checks.append(len(ops) - 1)
     ops += ["marker a", "marker b"]
     # message of death sets the marker too is covered by C07; a closed session refuses the retry
     ops += ["post a ok %d %s" % (cm["a"] + 1, hx("QUIT :bye")), "post a ok %d %s" % (cm["a"] + 1, hx("QUIT :bye"))]
